@@ -169,7 +169,7 @@ def reached_classes(c, a, reached):
         if (j["f"] & 8) and i not in tr["H"]:
             reached["supplied_hasher_kept_unseen"] += 1
     for p in tr["P"]:
-        if not p["st"] and p["e"] < (1 << 63) and p["e"] > 0:
+        if not p["st"]:
             reached["shared_range_skipped_or_empty"] += 1
     for i, cl in tr["C"].items():
         if len(cl) > 1:
